@@ -117,6 +117,9 @@ pub struct Config {
     pub extra: Option<fn(&mut Exec) -> Vec<Finding>>,
     /// operations applied to every fresh store before the history (not counted as depth)
     pub preseed: Vec<Op>,
+    /// read battery without the last-id / limit dimensions (retention properties only need the
+    /// unlimited reads of every scope on both paths)
+    pub light_battery: bool,
 }
 
 impl Default for Config {
@@ -128,6 +131,7 @@ impl Default for Config {
             settle_lookahead: false,
             extra: None,
             preseed: vec![],
+            light_battery: false,
         }
     }
 }
@@ -1074,7 +1078,11 @@ impl Exec {
             lasts.push(Some(Scru128Id::from_u128(first.to_u128() + 1)));
             lasts.push(Some(Scru128Id::from_u128(first.to_u128() - 1)));
         }
-        let limits = [None, Some(1usize), Some(2usize)];
+        let mut limits = vec![None, Some(1usize), Some(2usize)];
+        if self.cfg.light_battery {
+            lasts.truncate(1);
+            limits.truncate(1);
+        }
         for c in &ctxs {
             for l in &lasts {
                 for lim in &limits {
